@@ -284,6 +284,24 @@ def trace_strategy(st, p, max_vars=6, max_cons=5):
 STALE = b"\xa5STALE-ARTEFACT-FROM-AN-EARLIER-RUN" * 3000      # about 100 KB, longer than most outputs
 
 
+def failed_prove(mod, tmp, files):
+    """A proving step that fails half-way and is caught by the program: the last output file cannot be opened (its name is taken
+    by a directory). Whatever the failed call encoded or cached must not show in a later, valid, prove()."""
+    run = os.path.join(tmp, "failing-prove")
+    os.makedirs(os.path.join(run, files[-1]), exist_ok=True)
+    old = os.getcwd()
+    os.chdir(run)
+    try:
+        try:
+            mod.prove()
+        except Exception:
+            pass
+    finally:
+        os.chdir(old)
+        import shutil
+        shutil.rmtree(run, ignore_errors=True)
+
+
 def prove_over_stale(mod, tmp, files):
     """prove() in a working directory other than the one the backend was imported in (scripts chdir into an output
     directory), where the output files already exist and are longer than what is about to be written (a previous, bigger
